@@ -365,6 +365,25 @@ let run (cmd : string) (a : v) : v =
       L [ vlist (vlist vnat) (kmembers c);
           L (List.map (fun r -> vlist vinst (kfac_issues cfg c capo ls (nat_of_int r) h)) (range w));
           vlist vinst (kfac_order cfg c capo ls h) ]
+  | "neox_comm", L [I pp; I dd; I mm; I sym; L stages; L evs] ->
+      (* stages: per pipeline stage [[par(0 input|1 output), in, out, bias, rows, inv]...]; evs: ["fwd", i] | ["bwd", i] | ["step"] | ["user", [ns]] *)
+      let c = { nP = nat_of_int pp; nD = nat_of_int dd; nM = nat_of_int mm; nsym = (sym <> 0) } in
+      let lay = function
+        | L [I par; I nin; I nout; I hb; I rows; I inv] ->
+            { x_par = (if par = 0 then ParInput else ParOutput); x_in = nat_of_int nin; x_out = nat_of_int nout; x_bias = (hb <> 0);
+              x_rows = nat_of_int rows; x_inv = nat_of_int inv }
+        | _ -> failwith "nxlayer" in
+      let st_a = Array.of_list (List.map (fun ls -> List.map lay (getl ls)) stages) in
+      let layers p = let p = int_of_nat p in if p < Array.length st_a then st_a.(p) else [] in
+      let ev = function
+        | L [S "fwd"; I i] -> NFwd (nat_of_int i) | L [S "bwd"; I i] -> NBwd (nat_of_int i) | L [S "step"] -> NStep
+        | L [S "user"; L ns] -> NUser (List.map (fun x -> nat_of_int (geti x)) ns)
+        | _ -> failwith "nxev" in
+      let h = List.map ev evs in
+      let vinst i = L [vnat i.igrp; vnat i.ikind; vnat i.inumel; vnat i.iroot] in
+      L [ vlist (vlist vnat) (nmembers c);
+          L (List.map (fun r -> vlist vinst (neox_issues c layers (nat_of_int r) h)) (range (pp * dd * mm)));
+          vlist vinst (neox_order c layers h) ]
   | "neox_ckpt_comm", L [I dir] ->
       L [ L (List.map vnat (save_comm (dir <> 0))); L (List.map vnat (load_comm (dir <> 0))) ]
   | _ -> failwith ("unknown command or bad argument: " ^ cmd)
